@@ -404,6 +404,21 @@ def directed_programs():
     out.append(('size-dim-exact', Program([Func('main', params, None, body)]), None,
                 [([N.of(1), N.of(1), N.of(1), [N.of(k) for k in range(5)], [N.of(1)]], None),
                  ([N.of(1), N.of(1), N.of(1), [N.of(k) for k in range(7)], [N.of(1)]], CtxSpec('MPFloat', p=3))]))
+    # enumerate / range indices are exact integers whatever the active context can represent
+    body = [Node('with', None, Node('ctor', 'MPFloat', 'RNE', None, [L(2)]), [
+                Node('assign', PVn('ps'), Node('enumerate', V('xs'))),
+                Node('assign', PVn('rs'), Node('range', [Node('len', V('xs'))]))]),
+            Node('with', None, Node('ctor', 'MPFixed', 'RTZ', None, [L(1)]), [
+                Node('assign', PVn('qs'), Node('enumerate', V('ys'))),
+                Node('assign', PVn('acc'), L(0)),
+                Node('for', Node('ptuple', [PVn('i'), PVn('v')]), Node('enumerate', V('xs')),
+                     [Node('with', None, Node('ctxval', 'fp.REAL', CtxSpec('REAL')),
+                           [Node('assign', PVn('acc'), Node('op2', 'add', V('acc'), V('i')))])])]),
+            Node('return', Node('tuple', [V('ps'), V('rs'), V('qs'), V('acc')]))]
+    out.append(('enumerate-exact-indices', Program([Func('main', params, None, body)]), None,
+                [([N.of(1), N.of(1), N.of(1), [N.of(k + 0.5) for k in range(7)], [N.of(3), N.of(4), N.of(5), N.of(6)]], None),
+                 ([N.of(1), N.of(1), N.of(1), [N.of(k) for k in range(10)], [N.of(1), N.of(2)]], CtxSpec('MPFloat', p=2)),
+                 ([N.of(1), N.of(1), N.of(1), [N.of(2)], []], CtxSpec('MPFixed', nmin=2))]))
     # strict helpers: one offending access per program, so the exception class is the observed outcome
     base_args = [([N.of(1), N.of(2), N.of(k), [N.of(1.5), N.of(-2), N.of(0.1), N.of(7)], [N.of(3), N.of(4)]], None) for k in (1, 2, 3)]
     strict = {
